@@ -1,5 +1,6 @@
 CONSTANTS
   Cases <- TheCases
+  RCases <- TheRCases
   Around <- TheAround
 INIT Init
 NEXT Next
@@ -8,6 +9,7 @@ INVARIANT LenFieldOK
 INVARIANT ConsumedOK
 INVARIANT Lossless
 INVARIANT Stable
+INVARIANT Idempotent
 INVARIANT Fresh
 INVARIANT Mult8
 INVARIANT Export
